@@ -112,6 +112,14 @@ SCHEMAS = {
         'assocs': [A('R1', 'G', ['H_Id'], 'MC', 'H', ['Id'], '1C')],
         'uniques': {'H': [U('I1', 'Id')], 'G': [U('I1', 'Id')]},
     },
+    # two unrelated classes without identifiers: their CREATE TABLE statements may arrive late or never (inferred classes)
+    'plain2': {
+        'classes': ['X', 'Y'],
+        'attrs': {'X': [at('N', 'INTEGER'), at('S', 'STRING'), at('F', 'BOOLEAN')],
+                  'Y': [at('K', ID), at('R', 'REAL'), at('S', 'STRING'), at('N', 'INTEGER')]},
+        'assocs': [],
+        'uniques': {},
+    },
     # C19: a referential attribute in front of the plain ones, so that positional arguments run through it
     'ref_first': {
         'classes': ['T', 'S'],
